@@ -8,6 +8,7 @@ import sys
 import traceback
 
 from common import *  # noqa
+from common import Case
 import common
 
 TRUSTED_BASE = [
@@ -270,13 +271,43 @@ def run_check(prop, pid, tier, seed):
                     # correspondence broken, no property failure among the generated cases: escalate the search
                     if hasattr(prop, "search"):
                         violations.extend(prop.search(ctx, t1_bad))
+                if t1_bad and hasattr(prop, "t2_checker") and not any(v.kind == "property" for v in violations):
+                    # the correspondence broke: evaluate the property's tolerance predicate on every mismatching case
+                    # (truncated shortly after the first differing op), whether or not it was selected for T2 before
+                    cand = []
+                    for c_ in t1_bad[:24]:
+                        k_ = min(len(c_.ops), (c_.t1 + 6) if c_.t1 < 1000000 else min(len(c_.ops), 80))
+                        cc = Case(c_.cid + "_t", c_.ops[:k_], dump=(), meta=dict(c_.meta))
+                        cc.obs = c_.obs[:k_]
+                        cc.images = {}
+                        cand.append(cc)
+                    try:
+                        r2 = coq_check_cases(cand, pid + "t2b", checker=prop.t2_checker,
+                                             extra_header="From TA Require Import XQ Run2.\n", timeout=900)
+                        for cc, x_ in zip(cand, r2):
+                            if x_ != 0:
+                                violations.append(prop.t2_violation(ctx, cc, x_))
+                                break
+                    except Exception:  # noqa
+                        pass
                 if t1_bad:
+                    t1_bad.sort(key=lambda x_: 0 if x_.t1 < 1000000 else 1)
                     c = t1_bad[0]
                     small = shrink_t1(ctx, c, c.t1) if c.t1 < 1000000 else c
                     try:
                         model = coq_dump_case(small)
                     except Exception as e:  # noqa
                         model = str(e)[-300:]
+                    # the shrunk mismatching case is a candidate failing input: evaluate the property's tolerance predicate (T2) on it
+                    if hasattr(prop, "t2_checker") and not any(v.kind == "property" for v in violations) and small.obs is not None:
+                        try:
+                            r2 = coq_check_cases([small], pid + "t2s", checker=prop.t2_checker,
+                                                 extra_header="From TA Require Import XQ Run2.\n", timeout=600)
+                            if r2 and r2[0] != 0:
+                                small.meta = dict(c.meta)
+                                violations.append(prop.t2_violation(ctx, small, r2[0]))
+                        except Exception:  # noqa
+                            pass
                     violations.append(Violation(
                         "correspondence T1 (implementation vs Coq float model, bit-exact) fails on %d of %d cases; first: %s at op %d"
                         % (len(t1_bad), len(cases), c.cid, c.t1), case=small, kind="correspondence",
